@@ -155,6 +155,26 @@ func (it *interp) injectProbes() {
 		it.rec.add("probe:" + k + "|" + it.frames(env))
 		return object.BuiltInNil
 	}
+	fp := func(env *object.Env, kwargs *object.PanObj, args ...object.PanObject) object.PanObject {
+		// fingerprints of every variable of the caller's frame (C06 / C19)
+		type kv struct{ k, v string }
+		var kvs []kv
+		for h, v := range env.Store {
+			s, ok := object.SymHash2Str(h)
+			if !ok {
+				continue
+			}
+			kvs = append(kvs, kv{s.(*object.PanStr).Value, fingerprint(v, 0)})
+		}
+		sort.Slice(kvs, func(i, j int) bool { return kvs[i].k < kvs[j].k })
+		parts := make([]string, len(kvs))
+		for i, x := range kvs {
+			parts[i] = x.k + "=" + x.v
+		}
+		it.rec.add("fp:" + strings.Join(parts, "\x1f"))
+		return object.BuiltInNil
+	}
+	it.constEnv.Set(object.GetSymHash("fp"), object.NewPanBuiltInFunc(fp))
 	it.constEnv.Set(object.GetSymHash("say"), object.NewPanBuiltInFunc(say))
 	it.constEnv.Set(object.GetSymHash("probe"), object.NewPanBuiltInFunc(probe))
 }
@@ -279,7 +299,17 @@ func render(o object.PanObject, depth int, detail bool) string {
 		} else {
 			parts = append(parts, "<nilpairs>")
 		}
-		return "{" + strings.Join(parts, ", ") + "}" + protoSuffix(v.Proto(), object.BuiltInObjObj, depth, rec)
+		out := "{" + strings.Join(parts, ", ") + "}" + protoSuffix(v.Proto(), object.BuiltInObjObj, depth, rec)
+		if detail && v.Pairs != nil {
+			// everything the pairs map holds (the key lists above may be stale), and what the object prints
+			var all []string
+			for _, p := range *v.Pairs {
+				all = append(all, keyText(p.Key)+": "+rec(p.Value, depth+1))
+			}
+			sort.Strings(all)
+			out += "|pairs{" + strings.Join(all, ", ") + "}"
+		}
+		return out
 	case *object.PanMap:
 		var parts []string
 		if v.HashKeys != nil {
@@ -293,7 +323,16 @@ func render(o object.PanObject, depth int, detail bool) string {
 				parts = append(parts, rec(p.Key, depth+1)+": "+rec(p.Value, depth+1))
 			}
 		}
-		return "%{" + strings.Join(parts, ", ") + "}" + protoSuffix(v.Proto(), object.BuiltInMapObj, depth, rec)
+		out := "%{" + strings.Join(parts, ", ") + "}" + protoSuffix(v.Proto(), object.BuiltInMapObj, depth, rec)
+		if detail && v.Pairs != nil {
+			var all []string
+			for _, p := range *v.Pairs {
+				all = append(all, rec(p.Key, depth+1)+": "+rec(p.Value, depth+1))
+			}
+			sort.Strings(all)
+			out += "|pairs{" + strings.Join(all, ", ") + "}"
+		}
+		return out
 	case *object.PanRange:
 		return "(" + rec(v.Start, depth+1) + ":" + rec(v.Stop, depth+1) + ":" + rec(v.Step, depth+1) + ")" +
 			protoSuffix(v.Proto(), object.BuiltInRangeObj, depth, rec)
